@@ -42,3 +42,15 @@ Print Assumptions C11_all_schedules_partial.
 Print Assumptions C11_flushed_after_close.
 Print Assumptions C11_exactly_one_close.
 Print Assumptions C11_single_sequence_groups.
+
+(* non-vacuity: two threads (push + close, push), a schedule that runs them to the end: the Clear step
+   happened, every stack is empty, and both messages were delivered *)
+Example C11_example :
+  let m1 := {| mid := 1; mseq := 7; mty := 1300 |} in
+  let m2 := {| mid := 2; mseq := 8; mty := 1300 |} in
+  let ths := [{| stack := []; todo := [CPush m1; CClose] |}; {| stack := []; todo := [CPush m2] |}] in
+  let sched := map (fun t => (t, 0)) [0; 1; 0; 1; 0; 1; 0; 1; 0; 0; 0; 0; 0; 0; 0; 0; 0; 1; 1; 1]%nat in
+  let '(ths', s', tr) := crun (fun _ => []) {| maxSize := 10; timeout := 1000 |} sched ths init in
+  cleared tr = true /\ forallb (fun th => match stack th with [] => true | _ => false end) ths' = true /\
+  length (delivered tr) = 2%nat /\ cas_oks tr = 1%nat.
+Proof. vm_compute. auto. Qed.
